@@ -388,6 +388,12 @@ def run3(exe, mexe, cases, with_spec=True):
     return impl, st, model, spec
 
 
+def san_reports(ctx, sub, st, cases, impl):
+    """sanitizer / crash reports, naming the first case that produced no output (the driver stops there)"""
+    first = next((describe(c)[:300] for c, a in zip(cases, impl) if a.startswith("<no-output")), "")
+    vlib.sanitizer_reports(ctx, sub, st, first)
+
+
 def not_property(c, a, b):
     return (False, None)
 
@@ -400,7 +406,7 @@ def check_parsenum(ctx):
     exe, mexe, sl = b
     cases = int_cases(ctx, sl, ctx.n(55, 1500))
     impl, st, model, spec = run3(exe, mexe, cases)
-    vlib.sanitizer_reports(ctx, sub, st)
+    san_reports(ctx, sub, st, cases, impl)
     # the documented outcome: implementation = model = spec
     vlib.tri_compare(ctx, sub, cases, [proj(x) for x in impl], [proj(x) for x in model], spec, describe=describe)
     # the full observable incl. the value left in *x on failure: implementation = model
@@ -408,7 +414,7 @@ def check_parsenum(ctx):
     fc = float_cases(ctx, sl, ctx.n(90, 2500))
     fimpl, fst = vlib.run_sharded(exe, fc, env=ASAN_ENV)
     fmodel, _ = vlib.run_sharded(mexe, fc)
-    vlib.sanitizer_reports(ctx, sub + ".float", fst)
+    san_reports(ctx, sub + ".float", fst, fc, fimpl)
     vlib.tri_compare(ctx, sub + ".float", fc, fimpl, fmodel, None, describe=describe)
     ok = sum(1 for x in impl if x.startswith("OK"))
     ctx.count("pn.result_ok", ok)
@@ -498,7 +504,7 @@ def check_humansize(ctx):
     cases = ["hs %x" % v for v in hs_numbers(ctx, r, ctx.n(2500, 60000))]
     cases += ["hp " + hx(t) for t in hp_strings(ctx, r, ctx.n(4000, 100000))]
     impl, st, model, spec = run3(exe, mexe, cases)
-    vlib.sanitizer_reports(ctx, sub, st)
+    san_reports(ctx, sub, st, cases, impl)
 
     def projhp(c, line):
         return "-1" if c.startswith("hp") and line.startswith("-1") else line
@@ -532,7 +538,7 @@ def check_parsenum_safety(ctx):
     cases += ["hp " + hx(t) for t in hp]
     impl, st = vlib.run_sharded(exe, cases, env=ASAN_ENV)
     model, _ = vlib.run_sharded(mexe, cases)
-    vlib.sanitizer_reports(ctx, sub, st)
+    san_reports(ctx, sub, st, cases, impl)
     vlib.tri_compare(ctx, sub, cases, impl, model, None, describe=describe)
     pred = in_range_pred(sl)
     bad = 0
